@@ -93,6 +93,12 @@ def run_case(case, PROP='C01'):
         # many objects in one set -> multi-segment EFLR
         for j in range(r.choice([0, 0, 5, 40])):
             sp['ops'].append({'op': 'zone', 'name': f'Z{j}', 'attrs': {'description': gen.ascii_text(r, 20)}})
+        if r.random() < 0.3:
+            # a call the library rejects, never repeated: whatever it leaves behind (a set without objects) must not become a
+            # record that is handed to the writer and then vanishes
+            t_, bad_ = r.choice([('equipment', {'status': 7}), ('axis', {'spacing': 'x'}), ('tool', {'status': 9}), ('comment', {'text': 5})])
+            sp['ops'].append({'op': t_, 'name': 'REJECTED', 'attrs': bad_, 'expect': 'reject'})
+            obs['e2e-after-rejected-call'] = 1
         sp['write'] = {'output_chunk_size': r.choice([mx, 2 * mx, 2 ** 16]),
                        'input_chunk_size': r.choice([None, 1, 2, 100])}
         run = harness.execute(sp)
